@@ -98,7 +98,7 @@ fn shadow(init: &Snap, is: &mut InstructionSet, cache: &InstructionCache, max_st
         let after = size9(&st);
         let snap = Snap::of(&st);
         sh.digests.push(snap.digest());
-        let grew = sh.growth_at.is_none() && after > before + cap;
+        let grew = sh.growth_at.is_none() && after > before.saturating_add(cap);
         if k <= 3 || k + 8 >= max_steps || grew || st.exec_stack.size() == 0 {
             sh.full.insert(k, snap);
         }
@@ -142,7 +142,8 @@ pub fn run(ctx: &mut Ctx) {
         } else {
             *r.pick(&[-1, 0, 1, 2, 3, 5, 10, 17, 40, 100])
         };
-        let cap: usize = if big_limit { 100_000 } else if k % 25 == 24 { 500 } else { *r.pick(&[0, 1, 2, 3, 5, 8, 20, 500]) };
+        // growth caps: small, the default, and the extremes of the type (a cap nobody can exceed)
+        let cap: usize = if big_limit { 100_000 } else if k % 25 == 24 { 500 } else if k % 50 == 7 { *r.pick(&[usize::MAX, usize::MAX - 1, usize::MAX / 2 + 1]) } else { *r.pick(&[0, 1, 2, 3, 5, 8, 20, 500]) };
         // ---- program families --------------------------------------------------------------
         let family = if big_limit { k / 40 % 2 } else { k % 8 };
         let mut s = if family >= 5 { gen::snap(&mut r, &StateOpts { vals: Vals::Small, max_depth: 3, graphs: false, io: true, bindings: true, flags: false, random_cfg: false }, &alphabet) } else { Snap::empty() };
@@ -167,7 +168,7 @@ pub fn run(ctx: &mut Ctx) {
             }
             2 => {
                 // one step grows the state by exactly g items, for every g around the cap
-                let g = (cap as i64 + r.range(-2, 3)).max(0) as usize;
+                let g = if cap > 1_000_000 { 3 + r.below(40) } else { (cap as i64 + r.range(-2, 3)).max(0) as usize };
                 let lead = r.below(4);
                 let mut v: Vec<SItem> = (0..lead).map(|_| i("NOOP")).collect();
                 // a list of g+1 literals: unpacking replaces 1 item by g+1 (growth g)
@@ -177,7 +178,7 @@ pub fn run(ctx: &mut Ctx) {
             }
             3 => {
                 // growth through a wide record: LIST.GET copies a list, its unpacking explodes
-                let g = (cap as i64 + r.range(-1, 2)).max(0) as usize;
+                let g = if cap > 1_000_000 { 3 + r.below(40) } else { (cap as i64 + r.range(-1, 2)).max(0) as usize };
                 s.c = vec![SItem::List((0..g + 1).map(|j| SItem::Int(j as i32)).collect())];
                 SItem::List(vec![SItem::Int(0), i("LIST.GET"), i("NOOP")])
             }
@@ -321,7 +322,7 @@ pub fn run(ctx: &mut Ctx) {
                     if *size_after != e.my_size {
                         bad(ctx, "trace|size-after", format!("size_after {} but the monitor counts {}", size_after, e.my_size));
                     }
-                    if *size_after > size_before + cap {
+                    if *size_after > size_before.saturating_add(cap) {
                         over = true;
                     }
                     prev_size = Some(e.my_size);
@@ -345,7 +346,7 @@ pub fn run(ctx: &mut Ctx) {
         }
         let nd = sh.needed.map(|n| (n as i64 - l).clamp(-3, 4)).unwrap_or(9);
         let gd = sh.growth_at.map(|g| (g as i64 - l).clamp(-3, 4)).unwrap_or(9);
-        ctx.rec.cover(&format!("fam{}|L{}|C{}|n-L{}|g-L{}|{}", family, limit, cap, nd, gd, oname));
+        ctx.rec.cover(&format!("fam{}|L{}|C{}|n-L{}|g-L{}|{}", family, limit, if cap > 1_000_000 { 999_999_999 } else { cap }, nd, gd, oname));
         if k % 700 == 0 {
             ctx.rec.sample("run", &info);
         }
